@@ -109,6 +109,9 @@ def check(run: Run, ctx) -> None:
     g.run_corr(run, ctx, "vf.corr.gencode", "GenCode (primary response selection, arms)", quick=0.35, thorough=2.0)
     # generate_order_independent (order of `properties` / `required`) is about Pog.Dc: tie it to the real DataclassGenerator
     g.run_corr(run, ctx, "vf.corr.dc", "Dc (DataclassGenerator: sorted properties, field order)", quick=0.2, thorough=2.0)
+    g.run_corr(run, ctx, "vf.corr.loader", "Loader (one operation is parsed locally: components as lookup tables vs Pog.Loader)", quick=0.25, thorough=2.5)
+    g.run_oracle(run, ctx, g.Informational(known), "vf.corr.loader", "loader oracle on the real parse_operations (status = declared key, stream flag, parameter order)",
+                 {"LOADER-STREAM-FORMAT-ORDER": "-hazard", "LOADER-PROMO-NAME-COLLISION": "-hazard", "LOADER-POST-NAME-OVERWRITE": "-hazard"}, quick=0.3, thorough=3.0)
     run.cov["rule"] = (run.cov.get("rule") or "") + ("[metamorphic e2e] per seeded document: renderings {JSON, YAML block, YAML flow, YAML with merge keys (<<: *anchor)} must give byte-identical trees; YAML with integer status keys the "
                        "same manifest; 2 random permutations of schemas/paths/properties and 2 random permutations of the key order of EVERY mapping (path items, responses, content, components.parameters, ...) the same manifest (models->fields, clients->signatures); every third document shares components.parameters through $ref, two thirds declare several 2xx responses with different bodies. Distinct by document; non-trivial when >=2 schemas and >=2 operations")
     cases = []
